@@ -103,19 +103,28 @@ func TestC09(t *testing.T) {
 					continue
 				}
 				rec := r.readText(f[1])
-				var m struct {
+				type rmsg struct {
 					ID     json.RawMessage `json:"id"`
 					Method string          `json:"method"`
 					Result json.RawMessage `json:"result"`
 					Error  json.RawMessage `json:"error"`
 				}
-				if json.Unmarshal([]byte(rec), &m) == nil && m.Method == "" && (m.Result != nil || m.Error != nil) {
-					payload := 1
-					if m.Error != nil {
-						payload = 2
+				var ms []rmsg
+				if json.Unmarshal([]byte(rec), &ms) != nil { // not a batch: a single message
+					ms = make([]rmsg, 1)
+					if json.Unmarshal([]byte(rec), &ms[0]) != nil {
+						ms = nil
 					}
-					if n, err := strconv.Atoi(string(m.ID)); err == nil {
-						trace = append(trace, fmt.Sprintf("r:%d:%d", n, payload))
+				}
+				for _, m := range ms {
+					if m.Method == "" && (m.Result != nil || m.Error != nil) {
+						payload := 1
+						if m.Error != nil {
+							payload = 2
+						}
+						if n, err := strconv.Atoi(string(m.ID)); err == nil {
+							trace = append(trace, fmt.Sprintf("r:%d:%d", n, payload))
+						}
 					}
 				}
 			case "run":
@@ -224,7 +233,7 @@ func TestC09(t *testing.T) {
 				}
 				switch rng.Intn(7) {
 				case 5:
-					ops = append(ops, envOp{Kind: "cbreplybad", Arg: tag})
+					ops = append(ops, envOp{Kind: []string{"cbreplybad", "cbreplyarr"}[rng.Intn(2)], Arg: tag})
 				case 6:
 					ops = append(ops, envOp{Kind: "cbreply", Arg: tag}, envOp{Kind: "cbreplybad", Arg: tag}) // a late, malformed failure report
 				case 0:
@@ -263,6 +272,7 @@ func TestC09(t *testing.T) {
 			{Concurrency: 2, AllowPush: true, Ops: []envOp{{Kind: "callback", Arg: "k1"}, {Kind: "cbreply", Arg: "k1"}, {Kind: "send", Arg: reqCall(1, "Hc1", "ok")}, {Kind: "cbreply", Arg: "k1"}}},
 			{Concurrency: 2, AllowPush: true, Ops: []envOp{{Kind: "callback", Arg: "k1"}, {Kind: "stop"}}},
 			{Concurrency: 2, AllowPush: true, Ops: []envOp{{Kind: "callback", Arg: "k1"}, {Kind: "cbreplybad", Arg: "k1"}}},
+			{Concurrency: 2, AllowPush: true, Ops: []envOp{{Kind: "callback", Arg: "k1"}, {Kind: "cbreplyarr", Arg: "k1"}}},
 			{Concurrency: 2, AllowPush: true, Ops: []envOp{{Kind: "callback", Arg: "k1"}, {Kind: "cbreply", Arg: "k1"}, {Kind: "send", Arg: reqCall(1, "Hc1", "ok")}, {Kind: "cbreplybad", Arg: "k1"}}},
 			{Concurrency: 2, AllowPush: false, Ops: []envOp{{Kind: "callback", Arg: "k1"}, {Kind: "notify", Arg: "p1"}, {Kind: "send", Arg: reqCall(100, "c100", "cb:k2")}}},
 			{Concurrency: 2, AllowPush: true, Ops: []envOp{{Kind: "send", Arg: reqNote("n100", "cb:k1")}, {Kind: "send", Arg: reqCall(200, "c200", "ok")}, {Kind: "cbreply", Arg: "k1"}}},
